@@ -84,6 +84,19 @@ def run_case(case):
             # heap noise, then rebuild everything at different addresses
             noise = [ctypes.create_string_buffer(random.Random(rep).randrange(16, 70000)) for _ in range(50)]
             x = build()
+            # twin: the same construction again, over freed memory that holds garbage. Every member that is saved or
+            # compared must be determined by the construction (an uninitialised member shows up as a difference here)
+            junk = [ctypes.create_string_buffer(b'\xa5' * sz) for sz in (24, 40, 56, 80, 120, 200, 400, 800, 1600) for _ in range(12)]
+            del junk
+            tw = build()
+            counters['twin_builds'] = counters.get('twin_builds', 0) + 1
+            ca, cb = rt.sabin_sim(x), rt.sabin_sim(tw)
+            dk = [k_ for k_ in rt.diff_keys(ca, cb) if k_ not in ('walltime', 'walltime_last_step', 'walltime_last_steps', 'walltime_last_steps_sum', 'walltime_last_steps_N')]
+            if dk:
+                viol.append(dict(mech='twin:identically-built-states-differ:%s' % ','.join(dk)[:80], msg='two simulations built by the same calls differ in saved fields %r' % dk))
+            elif cdiff(x, tw) != 0:
+                viol.append(dict(mech='twin:identically-built-states-compare-different', msg='reb_simulation_diff reports a difference between two simulations built by the same calls'))
+            del tw
         cells.append(['equal', spec['integrator'], bool(spec.get('var') or spec.get('megno')), spec.get('gravity'), spec.get('collision')])
     elif part == 'independence':
         twin = build()
